@@ -359,6 +359,8 @@ def frame_checks(unit):
                     except Undecided:
                         pass
             tests = [(mm.start(), match_close(S.m, S.m.index("{", mm.end() - 1))) for mm in re.finditer(r"\bmod\s+tests?\s*\{", S.m)]
+            if fr.get("only_in") is not None:
+                allowed = allowed + _private_helpers_of(S, allowed, tests)
             for mm in pat.finditer(S.m):
                 if any(a <= mm.start() <= b for a, b in tests):
                     continue
@@ -368,6 +370,56 @@ def frame_checks(unit):
         results.append(dict(name=fr["name"], tags=fr.get("tags", []), hits=hits, bad=bad,
                             min_hits=fr.get("min_hits", 1), violation=fr.get("violation", False)))
     return results
+
+
+def _private_helpers_of(S, allowed, tests):
+    """Body spans of private helpers that are only ever called from inside the allowed functions (or from each other): R19 splices
+    such a helper into its contracted callers, where its writes are verified with them, so a write inside it is inside the frame.
+    A helper R19 would not inline (pub, async, early exit, non-identifier parameter, a `Type::h(recv)` call) is not accepted here either."""
+    from .inline import _params
+    m = S.m
+    cands = {}
+    for mm in re.finditer(r"\bfn\s+([A-Za-z_]\w*)", m):
+        if any(a <= mm.start() <= b for a, b in tests) or any(a <= mm.start() <= b for a, b in allowed):
+            continue
+        f = S._fn_at(mm.start(), mm.group(1))
+        if not f:
+            continue
+        sig = f["sig"]
+        if re.match(r"\s*pub\b(?!\s*\()", sig) or re.search(r"\basync\b", mask(sig).split("fn")[0]) or _params(sig) is None:
+            continue
+        bm = mask(f["body"])
+        if re.search(r"\breturn\b", bm) or "?" in bm or re.search(r"\b(break|continue)\s+'", bm):
+            continue
+        if f["name"] in cands:
+            cands[f["name"]] = None
+            continue
+        cands[f["name"]] = f
+    cands = {k: v for k, v in cands.items() if v}
+    ok = set()
+    changed = True
+    while changed:
+        changed = False
+        spans = list(allowed) + [(cands[k]["body_open"], cands[k]["body_close"]) for k in ok]
+        for name, f in cands.items():
+            if name in ok:
+                continue
+            good = True
+            for mm in re.finditer(r"(?<![\w])%s\b" % re.escape(name), m):
+                if mm.start() >= f["fn_kw"] and mm.start() < f["body_open"]:
+                    continue      # its own definition
+                if any(a <= mm.start() <= b for a, b in tests):
+                    continue
+                if not re.match(r"\s*(::<[^()]*>)?\s*\(", m[mm.end():]) or not re.search(r"(?:\bself\s*\.\s*|\bSelf\s*::\s*|(?<![\w.:]))$", m[:mm.start()]):
+                    good = False      # used as a value, or through a path R19 does not follow
+                    break
+                if not any(a <= mm.start() <= b for a, b in spans):
+                    good = False
+                    break
+            if good:
+                ok.add(name)
+                changed = True
+    return [(cands[k]["body_open"], cands[k]["body_close"]) for k in ok]
 
 
 def fn_regions(text):
